@@ -304,6 +304,11 @@ func c14serial(rep *vh.Report, seed uint64, idx int) {
 			cur.Feed(w[:len(w)/2])
 		}
 		cause := fmt.Errorf("injected serial failure #%d", f)
+		if f%3 == 1 {
+			// a driver error that calls itself temporary (EINTR, EAGAIN and the like): a read failure all the same
+			cause = &c14tempErr{n: f}
+			rep.Count("read_failures_that_call_themselves_temporary", 1)
+		}
 		injected[f] = cause
 		if r.Chance(1, 3) {
 			// the device has stopped taking output: the channel's writer sits inside Write when the read side fails
@@ -431,6 +436,10 @@ func c14custom(rep *vh.Report, seed uint64, idx int) {
 		}
 		tr.WaitDrained(time.Second)
 		c := fmt.Errorf("custom failure #%d", f)
+		if f%3 == 2 {
+			c = &c14tempErr{n: f}
+			rep.Count("read_failures_that_call_themselves_temporary", 1)
+		}
 		if f%3 == 1 {
 			// the peer goes away cleanly (io.EOF) right after the last thing the channel's writer handled had failed (an item
 			// that cannot be encoded for the link; a failed transport write): the cause of the closure is still the EOF
@@ -471,6 +480,13 @@ func c14custom(rep *vh.Report, seed uint64, idx int) {
 	rep.Eval(n)
 	rep.Count("custom_failures", n)
 }
+
+// c14tempErr is a net.Error that is not a timeout and calls itself temporary.
+type c14tempErr struct{ n int }
+
+func (e *c14tempErr) Error() string   { return fmt.Sprintf("interrupted system call (injected #%d)", e.n) }
+func (e *c14tempErr) Timeout() bool   { return false }
+func (e *c14tempErr) Temporary() bool { return true }
 
 // ---- servers: every peer its own channel, listener keeps accepting ----
 
